@@ -27,6 +27,8 @@ pub const STACKS: [&str; 12] = [
 pub const NSTACKS: u8 = 12;
 /// mode value of the direct-call cases (hook methods called by hand)
 pub const MODE_DIRECT: u8 = 255;
+/// mode value: one NoFinishHook value forwards two diffs
+pub const MODE_NF_REUSE: u8 = 254;
 
 struct Run {
     result: Result<(), usize>,
@@ -265,6 +267,39 @@ fn expand_replace(ev: &[Ev]) -> Vec<Ev> {
 fn check_case(c: &SeqCase, obs: &mut Obs) -> Verdict {
     if c.mode == MODE_DIRECT {
         return check_direct(c, obs);
+    }
+    if c.mode == MODE_NF_REUSE {
+        // the finish-suppressing wrapper keeps no state: used for a second diff (and for calls made by
+        // hand after it) it forwards exactly what a bare hook sees, finish aside
+        let alg = alg_of(c.alg);
+        let r = guard(|| {
+            let mut bare = Recorder::new();
+            similar::algorithms::diff_slices(alg, &mut bare, &c.old[..], &c.new[..]).unwrap();
+            let mut rec = Recorder::new();
+            {
+                let mut nf = NoFinishHook::new(&mut rec);
+                similar::algorithms::diff_slices(alg, &mut nf, &c.old[..], &c.new[..]).unwrap();
+                similar::algorithms::diff_slices(alg, &mut nf, &c.old[..], &c.new[..]).unwrap();
+                nf.equal(7, 7, 1).unwrap();
+            }
+            (bare.events, rec.events)
+        });
+        return match r {
+            Ok((bare, got)) => {
+                let once: Vec<Ev> = bare.into_iter().filter(|e| *e != Ev::Finish).collect();
+                let mut want = once.clone();
+                want.extend(once);
+                want.push(Ev::Equal(7, 7, 1));
+                if got != want {
+                    return Verdict::Fail(format!("{}: one NoFinishHook used for two diffs and one call by hand forwards {:?}, expected {:?}", alg_name(c.alg), got, want));
+                }
+                obs.executions = 3;
+                obs.nontrivial = true;
+                obs.class("one NoFinishHook value used for two diffs");
+                Verdict::Pass
+            }
+            Err(p) => Verdict::Fail(format!("{}: one NoFinishHook used for two diffs: {}", alg_name(c.alg), p)),
+        };
     }
     let stack = c.mode % NSTACKS;
     let overrides = (c.mode / NSTACKS) % 2 == 0;
@@ -556,6 +591,25 @@ fn enum_large(_tier: Tier, f: &mut dyn FnMut(SeqCase) -> bool) {
     b.remove(1500);
     inputs.push((1, a.clone(), b.clone()));
     inputs.push((0, a, b));
+    // thousands of hook calls in one diff (beyond 4096), through Compact and Compact<Replace> as well
+    for c0 in super::common::many_ops_cases() {
+        for mode in [0u8, 2, 3] {
+            let mut c = c0.clone();
+            c.mode = mode;
+            c.k = Some(1);
+            if !f(c) {
+                return;
+            }
+        }
+    }
+    // ONE NoFinishHook value used for two diffs
+    for alg in 0..3u8 {
+        let mut c = SeqCase::full(alg, vec![1, 2, 3, 4, 5], vec![1, 9, 3, 4, 6, 7]);
+        c.mode = MODE_NF_REUSE;
+        if !f(c) {
+            return;
+        }
+    }
     for (alg, old, new) in inputs {
         for mode in [0u8, 1, 3, 6] {
             let mut c = SeqCase::full(alg, old.clone(), new.clone());
@@ -599,7 +653,7 @@ impl Prop for C08 {
             Stage {
                 name: "large",
                 kind: StageKind::Enumerate {
-                    scope: "6 fixed large inputs (LCS 600x600 and 530x520, Myers/Patience 2500 vs 2400 over 6 letters and 3000 distinct items with a swap) x 4 stacks; success log + 6 sampled failing call indices".into(),
+                    scope: "6 fixed large inputs (LCS 600x600 and 530x520, Myers/Patience 2500 vs 2400 over 6 letters and 3000 distinct items with a swap) x 4 stacks, and 6 diffs with thousands of hook calls (beyond 4096) x {bare, Compact, Compact<Replace>}; success log + 6 sampled failing call indices; one NoFinishHook value used for two diffs and a call by hand".into(),
                     exhaustive: true,
                     gen: enum_large,
                 },
